@@ -440,11 +440,12 @@ MANIFEST_TEXT = {
         level_text="Proof (f64): Add/Sub exact; Mul and Div = exact result truncated toward zero; Mod = a - b*trunc(a/b); Trunc toward zero, "
                    "Ceil toward +infinity, Round to nearest with halves away from zero; Abs/Min/Max/Inc/Dec; From(v) = v*10^D and "
                    "As/CheckedAs(From v) = v for every integer kind -- Coq theorems for every multiplier 10..10^16 and all operands whose "
-                   "exact results are representable, over a model with explicit int64 wrap. f128 (same formulas over the proved Int128 "
-                   "operations of C01, plus Int128 division) and the float conversions are decided per run: correspondence for every "
-                   "method in all 16 configurations and an exact big-integer/rational oracle on the implementation's answers.",
+                   "exact results are representable, over a model with explicit int64 wrap. f128: the same laws (Add/Sub, Mul, Div incl. "
+                   "divide-by-zero, Trunc, Mod, Ceil, Round, Min/Max/Inc/Dec) are Coq theorems over the Int128 model, resting on the C01 "
+                   "theorems for Int128 Add/Sub/Mul/Neg/comparisons and division. f128 From/As and all float conversions are decided per run: "
+                   "correspondence for every method in all 16 configurations and an exact big-integer/rational oracle on the implementation's answers.",
         level_note="Trusted: Coq kernel, extraction, drivers, harness; model hand-written, tied by correspondence on sampled operands; "
-                   "f128 theorems await the C01 division theorems; float conversions are only tolerance-checked.",
+                   "f128 integer From/As not proved (tied by K and S); float conversions are only tolerance-checked.",
         technique="Coq proof (lia/nia with truncated division) on a hand-written Gallina model + differential correspondence check"),
     "C07": dict(
         level_text="Proof: for every history of Insert/Remove/Reorganize/Clear, every threshold and rational coordinates (all ints and finite "
@@ -479,9 +480,11 @@ MANIFEST_TEXT = {
                    "the values; And/Or/Xor/AndNot/Not (+64 variants), Bit, SetBit, BitLen, LeadingZeros, TrailingZeros, OnesCount equal the "
                    "binary representation; LeftShift/RightShift equal *2^n mod 2^128 and /2^n for every n >= 0; Int128 Add/Sub/Mul/Inc/Dec/"
                    "Add64/Sub64/Mul64/Neg/Abs/AbsUint128/Sign/Cmp/predicates equal two's-complement arithmetic -- Coq theorems for all "
-                   "well-formed operands over an executable transcription of both files. Division (Div, Mod, DivMod, 64-bit and signed "
-                   "forms: five algorithms) is transcribed in the model and decided per run by correspondence + exact big-integer "
-                   "quotient/remainder on the implementation's answers; its theorems are listed in DESIGN.md as not yet proved.",
+                   "well-formed operands over an executable transcription of both files. Division: Div/Mod/DivMod, the 64-bit forms and the "
+                   "signed forms return the exact quotient (toward zero) and remainder (sign of the dividend; MinInt128/-1 wraps) for every "
+                   "dividend and non-zero divisor, divide-by-zero is reported -- proved through all five algorithms (divmod128by64 with the "
+                   "two-digit estimate loop, estimate-and-correct 128/128, shift-and-subtract, power-of-two shortcut, dispatch). "
+                   "Each run also checks correspondence and an exact big-integer oracle on the implementation's answers.",
         level_note="Trusted: Coq kernel, extraction, drivers, harness; model hand-written, tied by correspondence on sampled operand pairs "
                    "(all division paths reached, class histogram in the evidence).",
         technique="Coq proof (lia/nia over Z with explicit mod 2^64 wrap, bit extensionality) on a hand-written Gallina model + differential correspondence check"),
